@@ -214,7 +214,15 @@ func fieldName(t types.Type, idx int) string {
 	if !ok || idx >= st.NumFields() {
 		return fmt.Sprintf("f%d", idx)
 	}
-	return st.Field(idx).Name()
+	n := st.Field(idx).Name()
+	if len(canonFields) > 0 {
+		if m := canonFields[relTypeString(t)]; m != nil {
+			if old, ok := m[n]; ok {
+				return old
+			}
+		}
+	}
+	return n
 }
 
 // fieldOf returns (struct type name, field name) for a FieldAddr/Field.
